@@ -60,7 +60,9 @@ KERNELS = [
     # include/st_codecs_priv.h: the decoders into a caller buffer
     "b64_decode_size", "hex_decode", "b64_decode",
     # include/st_format_priv.h
-    "pad_size",
+    "pad_size", "format_numeric_prefix", "format_numeric_string",
+    # include/st_formatter.h: the padding / truncation of every text-like argument (namespace ST)
+    "format_string@text:const char *",
 ]
 
 class Unsupported(Exception):
@@ -82,7 +84,7 @@ def dump_ast():
             f.write('#include "st_string.h"\n#include "st_utf_conv.h"\n#include "st_codecs.h"\n'
                     '#include "st_format.h"\n#include "st_stringstream.h"\n')
         s = ""
-        for flt in ("_ST_PRIVATE::", "utf_validation_t", "ST::assume_valid", "ST::substitute_invalid", "ST::check_validity", "digit_class_t", "ST::digit_"):
+        for flt in ("_ST_PRIVATE::", "utf_validation_t", "ST::assume_valid", "ST::substitute_invalid", "ST::check_validity", "digit_class_t", "ST::digit_", "alignment_t", "ST::align_", "ST::format_string"):
             r = subprocess.run([CLANG, "-std=gnu++20", "-fsyntax-only", "-I", os.path.join(tmp, "cfg"),
                                 "-I", os.path.join(REPO, "include"), "-Xclang", "-ast-dump=json",
                                 "-Xclang", "-ast-dump-filter=" + flt, tu],
@@ -238,8 +240,9 @@ class Env:
         self.out = None        # lean name of the list written so far (or None)
         self.outbits = None
         self.pending = None    # units copied to the output position by char_traits::copy, not yet stepped over
+        self.ev = None         # lean name of the list of format_writer calls made so far (or None)
     def copy(self):
-        e = Env(); e.vars = {k: dict(v) for k, v in self.vars.items()}; e.out = self.out; e.outbits = self.outbits; e.pending = self.pending
+        e = Env(); e.vars = {k: dict(v) for k, v in self.vars.items()}; e.out = self.out; e.outbits = self.outbits; e.pending = self.pending; e.ev = self.ev
         return e
 
 class Translator:
@@ -552,6 +555,17 @@ class Translator:
             r.outpos = v["kind"] == "pos"
             r.mem = v.get("mem")
             return [], r, env
+        if k == "ImplicitCastExpr" and n.get("castKind") == "NoOp":
+            return self.load(fn, inner(n)[0], env)
+        if k == "ConditionalOperator":      # `c ? x : y` with both branches lvalues
+            c, a, b = inner(n)
+            l0, cv, env = self.cond(fn, c, env)
+            l1, av, _ = self.load(fn, a, env)
+            l2, bv, _ = self.load(fn, b, env)
+            if l1 or l2:
+                raise Unsupported("side effects inside ?:")
+            av, bv = same_kind(av, bv)
+            return l0, Val("if %s then %s else %s" % (cv.text, av.text, bv.text), min(av.lo, bv.lo), max(av.hi, bv.hi), isint=av.isint), env
         if k == "MemberExpr":
             b = inner(n)[0]
             while b["kind"] in ("ImplicitCastExpr", "ParenExpr"):
@@ -719,6 +733,19 @@ class Translator:
         for a, p in zip(args, sig["params"]):
             if p["kind"] == "omitted":
                 continue
+            if p["kind"] == "ev":
+                continue
+            if p["kind"] == "struct":
+                x0 = a
+                while x0["kind"] in ("ImplicitCastExpr", "ParenExpr"):
+                    x0 = inner(x0)[0]
+                sn = x0.get("referencedDecl", {}).get("name")
+                for f0 in p["fields"]:
+                    key = "%s.%s" % (sn, f0)
+                    if key not in env.vars:
+                        raise Unsupported("structure argument whose field %s the caller does not have" % f0)
+                    texts.append(env.vars[key]["name"])
+                continue
             if p["kind"] == "out":
                 if p.get("nullflag"):
                     x0 = a
@@ -760,6 +787,11 @@ class Translator:
         us = None
         if sig["out"]:
             us = fn.fresh("us"); names.append(us)
+        evs = None
+        if sig.get("ev"):
+            if not fn.has_ev:
+                raise Unsupported("call of a function that writes to a sink the caller does not have")
+            evs = fn.fresh("evs"); names.append(evs)
         pat = names[0] if len(names) == 1 else "(" + ", ".join(names) + ")"
         lines.append("let %s ← %s %s" % (pat, name, " ".join(texts)))
         if us:
@@ -768,6 +800,10 @@ class Translator:
             no = fn.fresh("out")
             lines.append("let %s := %s ++ %s" % (no, env.out, us))
             env.out = no
+        if evs:
+            ne = fn.fresh("ev")
+            lines.append("let %s := %s ++ %s" % (ne, env.ev, evs))
+            env.ev = ne
         if sig["ret"] is None:
             return lines, None, env
         lo, hi, isint = sig["ret"]
@@ -889,6 +925,8 @@ class Translator:
             parts.append(env.vars[pn]["name"])
         if fn.has_out:
             parts.append(env.out)
+        if fn.has_ev:
+            parts.append(env.ev)
         if not parts:
             return "()"
         return "(" + ", ".join(parts) + ")" if len(parts) > 1 else parts[0] if v is None or v.atom else "(" + parts[0] + ")"
@@ -1030,6 +1068,46 @@ class Translator:
         if kind == "UnaryOperator" and s["opcode"] in ("++", "--"):
             l, _, env = self.incdec_value(fn, s, env)
             return l, env
+        if kind == "CXXMemberCallExpr":
+            me = inner(s)[0]
+            obj = inner(me)[0] if me.get("kind") == "MemberExpr" else {}
+            while obj.get("kind") in ("ImplicitCastExpr", "ParenExpr"):
+                obj = inner(obj)[0]
+            var = env.vars.get(obj.get("referencedDecl", {}).get("name")) if obj.get("kind") == "DeclRefExpr" else None
+            if not (var and var["kind"] == "ev"):
+                raise Unsupported("member call statement")
+            args = inner(s)[1:]
+            lines = []
+            if me.get("name") == "append_char" and len(args) == 2:
+                l, cv, env = self.expr(fn, args[0], env); lines += l
+                cv = self.convert(cv, "unsigned char") if (cv.lo < 0 or cv.hi > 255) else cv      # the byte the sink receives
+                cv = to_nat(cv)
+                if args[1]["kind"] == "CXXDefaultArgExpr":
+                    nv = lit(1)                              # `size_t count = 1`
+                else:
+                    l, nv, env = self.expr(fn, args[1], env); lines += l; nv = to_nat(nv)
+                item = "Ev.appendChar %s %s" % (cv.p(), nv.p())
+            elif me.get("name") == "append" and len(args) == 2:
+                d0 = args[0]
+                while d0["kind"] in ("ImplicitCastExpr", "ParenExpr"):
+                    d0 = inner(d0)[0]
+                l, nv, env = self.expr(fn, args[1], env); lines += l; nv = to_nat(nv)
+                if d0["kind"] == "StringLiteral":
+                    bs = c_string_bytes(d0["value"])
+                    if nv.lo != nv.hi or nv.lo > len(bs):
+                        raise Unsupported("append of a literal with a size that is not a constant within it")
+                    item = "Ev.append [%s]" % ", ".join(str(b) for b in bs[:nv.lo])
+                else:
+                    l, pv, env = self.expr(fn, args[0], env); lines += l
+                    t = fn.fresh("bs")
+                    lines.append("let %s ← rdRange %s %s %s" % (t, pv.mem or "mem", pv.p(), nv.p()))
+                    item = "Ev.append %s" % t
+            else:
+                raise Unsupported("sink call " + str(me.get("name")))
+            ne = fn.fresh("ev"); env = env.copy()
+            lines.append("let %s := %s ++ [%s]" % (ne, env.ev, item))
+            env.ev = ne
+            return lines, env
         if kind == "CallExpr" and callee_name(s) == "copy":
             args = inner(s)[1:]
             d, src, cnt = args
@@ -1172,6 +1250,8 @@ class Translator:
                 pre += [pad + x for x in l]
         if env.pending is not None:
             raise Unsupported("loop entered while a block copy is pending")
+        if fn.has_ev:
+            raise Unsupported("loop in a function that writes to a sink")
         fn.loops += 1; fn.needs_fuel = True
         lname = "%s_loop%d" % (fn.name, fn.loops)
         mod = assigned_vars(body, set()) | (assigned_vars(inc, set()) if inc is not None else set()) | assigned_vars(cond, set())
@@ -1273,12 +1353,21 @@ class Translator:
 
     # ------------------------------------------------------------------------- functions
     def function(self, name, special=None, as_name=None):
-        arity = None
+        arity = None; ptype = None
+        if "@" in name:
+            name, ptype = name.split("@"); ptype = ptype.split(":", 1)
         if "/" in name:
             name, arity = name.split("/"); arity = int(arity)
         cands = self.fdecls.get(name, [])
         if arity is not None:
             cands = [c for c in cands if len([x for x in inner(c) if x["kind"] == "ParmVarDecl"]) == arity]
+        if ptype is not None:
+            cands = [c for c in cands if any(x["kind"] == "ParmVarDecl" and x.get("name") == ptype[0] and strip_cv(qt(x)) == strip_cv(ptype[1]) for x in inner(c))]
+        # the same definition may be dumped by several filters
+        uniq = {}
+        for c in cands:
+            uniq.setdefault(c.get("id"), c)
+        cands = list(uniq.values())
         if len(cands) != 1:
             raise Unsupported("%d definitions of %s" % (len(cands), name))
         d = cands[0]
@@ -1287,7 +1376,7 @@ class Translator:
         if as_name:
             fn.name = as_name
         fn.loops = 0; fn.needs_fuel = False; fn.loopctx = []; fn.clones = {}; fn.arrays = {}
-        fn.int_tables = set(); fn.local_arrays = set(); fn.cursors = cursor_vars(d)
+        fn.int_tables = set(); fn.local_arrays = set(); fn.cursors = cursor_vars(d); fn.has_ev = False
         # a function with several `const T *` parameters reads several source ranges: one list per parameter
         # (which parameters point into different ranges is stated in SEPARATE_RANGES; by default every `const T *` parameter of a
         # function points into the one range `mem`, as `utf8` and `end` of extract_utf8 do)
@@ -1307,9 +1396,18 @@ class Translator:
                     env.vars[pn] = dict(name=str(k), lo=k, hi=k, isint=False, kind="int", ctype=t)
                     params.append(dict(kind="omitted"))
                     continue
+                if strip_cv(t.replace("&", "")).strip() in ("ST::format_writer", "format_writer") and is_ref(t):
+                    # the sink: the sequence of its two virtual calls, append(data, size) and append_char(ch, count)
+                    fn.has_ev = True
+                    env.vars[pn] = dict(name=None, lo=0, hi=0, isint=False, kind="ev", ctype=t)
+                    env.ev = "([] : List Ev)"
+                    params.append(dict(kind="ev", isint=False))
+                    continue
                 if strip_cv(t.replace("&", "")).strip() in ("ST::format_spec", "format_spec") and is_ref(t) and "const" in t:
                     # a structure passed by const reference: one parameter per field the function reads
-                    for fname, ftype in struct_fields(d, pn):
+                    fields = struct_fields(d, pn, self.sigs)
+                    params.append(dict(kind="struct", isint=False, fields=[f0 for f0, _ in fields]))
+                    for fname, ftype in fields:
                         it = int_type(ftype, self.enums)
                         if it is None:
                             raise Unsupported("field %s.%s of type %s" % (pn, fname, ftype))
@@ -1317,7 +1415,6 @@ class Translator:
                         fl = "%s_%s" % (ln, fname)
                         env.vars["%s.%s" % (pn, fname)] = dict(name=fl, lo=lo, hi=hi, isint=it[0], kind="int", ctype=ftype)
                         binders.append("(%s : %s)" % (fl, "Int" if it[0] else "Nat"))
-                    params.append(dict(kind="struct", isint=False))
                     continue
                 if strip_cv(t.replace("&", "")).strip() in ("ST::string", "string") and is_ref(t) and "const" in t:
                     uses_mem = True
@@ -1383,13 +1480,17 @@ class Translator:
         rtys += ["Nat"] * len(fn.inouts)
         if fn.has_out:
             rtys.append("List Nat")
+        if fn.has_ev:
+            rtys.append("List Ev")
         rty = " × ".join(rtys) if rtys else "Unit"
         uses_mem = uses_mem or fn.needs_fuel
         name = fn.name
         head = "def %s %s%s%s: M (%s) := do" % (name, (fn.mem_binders + " ") if uses_mem else "", "(fuel : Nat) " if fn.needs_fuel else "",
                                                   " ".join(binders) + (" " if binders else ""), rty)
         fn.aux = [x.replace("%RTY%", rty) for x in fn.aux]
-        self.sigs[name] = dict(mem=uses_mem, params=params, ret=fn.ret, out=fn.has_out, fuel=fn.needs_fuel, regions=fn.regions, arity=len(params))
+        self.sigs[name] = dict(mem=uses_mem, params=params, ret=fn.ret, out=fn.has_out, fuel=fn.needs_fuel, regions=fn.regions, arity=len(params), ev=fn.has_ev,
+                               struct_types={c["name"]: [(f0, t0) for f0, t0 in struct_fields(d, c["name"], self.sigs)] for c in inner(d)
+                                             if c["kind"] == "ParmVarDecl" and strip_cv(qt(c).replace("&", "")).strip() in ("ST::format_spec", "format_spec")})
         loc = d.get("loc", {})
         src = "/-- `%s` (%s) -/" % (d["name"] if not as_name else "%s, specialised for a call site of %s" % (d["name"], as_name.rsplit("_", 2)[0]), os.path.basename(loc.get("file", loc.get("includedFrom", {}).get("file", "")) or "") or "include/")
         return fn.aux + [src, head] + lines
@@ -1454,10 +1555,21 @@ def null_tested(fdecl, pname, sigs={}):
         return any(walk(c) for c in n.get("inner", []) if isinstance(c, dict))
     return walk(fdecl)
 
-def struct_fields(fdecl, pname):
-    """(field, type) of every `pname.field` the function mentions, in order of first use"""
+def struct_fields(fdecl, pname, sigs={}):
+    """(field, type) of every `pname.field` the function (or a translated function it passes the structure to) reads,
+    in order of first use"""
     seen = []
     def walk(n):
+        if n.get("kind") == "CallExpr" and callee_name(n) in sigs:
+            sg = sigs[callee_name(n)]
+            for a, prm in zip(inner(n)[1:], sg["params"]):
+                x = a
+                while x.get("kind") in ("ImplicitCastExpr", "ParenExpr"):
+                    x = inner(x)[0]
+                if prm.get("kind") == "struct" and x.get("kind") == "DeclRefExpr" and x["referencedDecl"].get("name") == pname:
+                    for f0, t0 in list(sg.get("struct_types", {}).values())[0] if sg.get("struct_types") else []:
+                        if f0 not in [y[0] for y in seen]:
+                            seen.append((f0, t0))
         if n.get("kind") == "MemberExpr":
             b = inner(n)[0] if inner(n) else {}
             while b.get("kind") in ("ImplicitCastExpr", "ParenExpr"):
